@@ -33,11 +33,11 @@ namespace KeyFile
 /-! ## bufio.Scanner / ScanLines -/
 
 /-- `\n`-separated raw lines as `ScanLines` finds them: `cur` is the part of the
-    current line seen so far. At the end of the data a non-empty remainder is a
-    line, an empty one is not. -/
+    current line seen so far, most recent byte first. At the end of the data a
+    non-empty remainder is a line, an empty one is not. -/
 def rawLinesAux : Bytes → Bytes → List Bytes
-  | cur, [] => if cur = [] then [] else [cur]
-  | cur, c :: cs => if c = 10 then cur :: rawLinesAux [] cs else rawLinesAux (cur ++ [c]) cs
+  | cur, [] => if cur = [] then [] else [cur.reverse]
+  | cur, c :: cs => if c = 10 then cur.reverse :: rawLinesAux [] cs else rawLinesAux (c :: cur) cs
 
 def rawLines (b : Bytes) : List Bytes := rawLinesAux [] b
 
